@@ -451,7 +451,11 @@ def alias_sources(fn, local, depth=6):
     for _ in range(depth):
         nxt = []
         for l in frontier:
-            for src in mv.get(l, ()):
+            srcs_ = set(mv.get(l, ()))
+            for k_, v_ in mv.items():
+                if k_.startswith(l + "."):
+                    srcs_ |= v_
+            for src in srcs_:
                 if src not in out:
                     out.add(src)
                     base = re.match(r"^\(?\*?(_\d+)\)?$", src)
@@ -492,29 +496,103 @@ def family_calls(F, fn, _depth=0):
                     yield i, cb
 
 
+TOK = re.compile(r"_\d+(?:\.\d+)?")
+
+
+def _norm(place):
+    return re.sub(r" as \w+", "", place)
+
+
+def _is_tainted(tok, taint):
+    if tok in taint:
+        return True
+    base_ = tok.split(".")[0]
+    if base_ in taint:
+        return True
+    if "." not in tok:  # whole local: tainted if any of its fields is
+        pre = tok + "."
+        return any(t.startswith(pre) for t in taint)
+    return False
+
+
 def tainted_locals(fn, seeds):
-    """forward closure of 'derived from' over simple moves/borrows/casts and over calls (a call's destination is
-    derived from each of its arguments). seeds / results are local names like '_2'."""
+    """forward closure of 'derived from' over simple moves/borrows/casts, aggregates (field-sensitive: `_5.0`) and calls
+    (a call's destination is derived from each of its arguments). Seeds / results are tokens like '_2' or '_5.1';
+    use `tok in result` through is_tainted() semantics: a whole local counts as tainted when one of its fields is."""
     taint = set(seeds)
-    base = re.compile(r"_\d+")
     changed = True
     while changed:
         changed = False
         for b in fn.blocks:
             for e in b["e"]:
                 if e[0] == "mv" and e[1] not in taint:
-                    if any(x in taint for x in base.findall(e[2])):
+                    if any(_is_tainted(x, taint) for x in TOK.findall(_norm(e[2]))):
                         taint.add(e[1])
                         changed = True
-                elif e[0] in ("agg",) and False:
-                    pass
             if b["k"] == "call":
-                d = base.match(b.get("dest") or "")
+                d = re.match(r"_\d+", b.get("dest") or "")
                 if d and d.group(0) not in taint:
-                    if any(x in taint for a in b["args"] for x in base.findall(a)):
+                    if any(_is_tainted(x, taint) for a in b["args"] for x in TOK.findall(_norm(a))):
                         taint.add(d.group(0))
                         changed = True
-    return taint
+    # close under 'whole local is tainted when a field is'
+    for t in list(taint):
+        if "." in t:
+            taint.add(t.split(".")[0] + ".*")
+    return TaintSet(taint)
+
+
+class TaintSet(set):
+    """membership is field-aware: '_5' in T is true when '_5' or any '_5.k' is tainted; '_5.0' when '_5.0' or '_5' is"""
+
+    def __contains__(self, tok):
+        if set.__contains__(self, tok):
+            return True
+        if "." in tok:
+            return set.__contains__(self, tok.split(".")[0])
+        return set.__contains__(self, tok + ".*")
+
+
+def derivation_fields(F, fn):
+    """for every local of fn: the set of field names its value was derived through (moves/borrows of places with field
+    projections, results of calls on derived arguments, closures built in the same block and passed along)"""
+    base = re.compile(r"_\d+")
+    fields = defaultdict(set)
+    changed = True
+    # fields read inside closures constructed in a block are attributed to the call consuming the closure in that block
+    clos_fields = {}
+    for i, b in enumerate(fn.blocks):
+        s = set()
+        for e in b["e"]:
+            if e[0] == "closure" and e[1] in F.fns:
+                for _, ce in family_events(F, F.fns[e[1]], "fld"):
+                    s.add(ce[2])
+        clos_fields[i] = s
+    while changed:
+        changed = False
+        for i, b in enumerate(fn.blocks):
+            for e in b["e"]:
+                if e[0] == "mv":
+                    new = set(re.findall(r"\.([A-Za-z_][A-Za-z0-9_]*)", e[2]))
+                    for x in base.findall(e[2]):
+                        new |= fields.get(x, set())
+                    if not new <= fields[e[1]]:
+                        fields[e[1]] |= new
+                        changed = True
+            if b["k"] == "call":
+                d = base.match(b.get("dest") or "")
+                if d:
+                    new = set()
+                    for a in b["args"]:
+                        new |= set(re.findall(r"\.([A-Za-z_][A-Za-z0-9_]*)", a))
+                        for x in base.findall(a):
+                            new |= fields.get(x, set())
+                    if new:
+                        new |= clos_fields.get(i, set())
+                    if not new <= fields[d.group(0)]:
+                        fields[d.group(0)] |= new
+                        changed = True
+    return fields
 
 
 def sccs(nodes, succ):
@@ -603,45 +681,3 @@ def reachable_correlated(fn, starts, avoid, decided):
                 seen.add(s)
                 dq.append(s)
     return seen
-
-
-def derivation_fields(F, fn):
-    """for every local of fn: the set of field names its value was derived through (moves/borrows of places with field
-    projections, results of calls on derived arguments, closures built in the same block and passed along)"""
-    base = re.compile(r"_\d+")
-    fields = defaultdict(set)
-    changed = True
-    # fields read inside closures constructed in a block are attributed to the call consuming the closure in that block
-    clos_fields = {}
-    for i, b in enumerate(fn.blocks):
-        s = set()
-        for e in b["e"]:
-            if e[0] == "closure" and e[1] in F.fns:
-                for _, ce in family_events(F, F.fns[e[1]], "fld"):
-                    s.add(ce[2])
-        clos_fields[i] = s
-    while changed:
-        changed = False
-        for i, b in enumerate(fn.blocks):
-            for e in b["e"]:
-                if e[0] == "mv":
-                    new = set(re.findall(r"\.([A-Za-z_][A-Za-z0-9_]*)", e[2]))
-                    for x in base.findall(e[2]):
-                        new |= fields.get(x, set())
-                    if not new <= fields[e[1]]:
-                        fields[e[1]] |= new
-                        changed = True
-            if b["k"] == "call":
-                d = base.match(b.get("dest") or "")
-                if d:
-                    new = set()
-                    for a in b["args"]:
-                        new |= set(re.findall(r"\.([A-Za-z_][A-Za-z0-9_]*)", a))
-                        for x in base.findall(a):
-                            new |= fields.get(x, set())
-                    if new:
-                        new |= clos_fields.get(i, set())
-                    if not new <= fields[d.group(0)]:
-                        fields[d.group(0)] |= new
-                        changed = True
-    return fields
